@@ -230,6 +230,28 @@ def _classify(repo, r, fn, param, what, node, q, ref_stored, depth):
                 _classify(repo, r, callee, p2, what + ' -> %s(%s)' % (callee.name if callee.name != '__init__' else detail[0], p2), n, q, ref_stored, depth + 1)
 
 
+def _only_looked_up(mod, name):
+    '''every occurrence of <x>.name in the module is a read that cannot let the object escape or change'''
+    occ = [n for n in ast.walk(mod.tree) if isinstance(n, ast.Attribute) and n.attr == name]
+    if not occ:
+        return True
+    for n in occ:
+        if not isinstance(n.ctx, ast.Load):
+            return False
+        p_ = getattr(n, '_parent', None)
+        if isinstance(p_, ast.Subscript) and p_.value is n and isinstance(p_.ctx, ast.Load):
+            continue
+        if isinstance(p_, ast.Attribute) and p_.value is n and p_.attr in ('get', 'keys', 'values', 'items') and \
+                isinstance(getattr(p_, '_parent', None), ast.Call):
+            continue
+        if isinstance(p_, ast.Compare) and n in p_.comparators:
+            continue
+        if isinstance(p_, (ast.For, ast.comprehension)) and p_.iter is n:
+            continue
+        return False
+    return True
+
+
 def fresh(ctx):
     repo = ctx.repo
     r = ctx.rule('C18-FRESH', 'nothing built is remembered by the loader or shared between objects', floor=10, oracle='non-interference')
@@ -247,6 +269,9 @@ def fresh(ctx):
             for name, v in repo.assigns_in_class(c).items():
                 mutable = isinstance(v, (ast.List, ast.Dict, ast.Set, ast.ListComp, ast.DictComp, ast.SetComp)) or \
                     (isinstance(v, ast.Call) and dotted(v.func) in MUTABLE_CTORS)
+                if mutable and _only_looked_up(repo.module(modname), name):
+                    # a literal table that the module only reads (membership, indexing, .get, iteration) holds no build state
+                    mutable = False
                 r.check(not mutable, '%s.%s is not a shared mutable class attribute' % (c.name, name), v, construct='%s:%s' % (modname, c.name),
                         key='class-attr ' + name, msg='%s.%s is a mutable class-level value shared by all instances (and thus by all metamodels)' % (c.name, name))
             for m in c.body:
